@@ -1,5 +1,6 @@
 import EinxModel.Proofs.OptDagSound
 import EinxModel.Proofs.OptDagIR
+import EinxModel.Proofs.OptDagTerm
 /-!
 C05 (second file) — the REAL optimiser traversal on DAGs.
 
@@ -74,6 +75,72 @@ theorem optimizeDag_sound {α : Type} (A : Alg α) (O : EApp (PV α) → Except 
 theorem irSem_satisfies_laws {α : Type} (A : Alg α) (O : EApp (PV α) → Except String (PV α)) (fns : NpFns) (hd : fns.distinct = true) :
     (irSem A O fns).Laws fns.patterns := irSem_laws A O fns hd
 
+/-! ## Termination -/
+
+/-- **pass_terminates** (the fuel bound is sufficient): on a graph over a topologically ordered store (operands before
+consumers, no nested graphs -- `Prog.topoOK`, decidable) one pass of the traversal never runs out of the recursion depth
+`Prog.fuel = 2·(nodes + graphs) + 2` the model gives it: it returns a program or the exception Python would raise. -/
+theorem pass_terminates (pats : List Pattern) (p : Prog) (h : p.topoOK = true) : pass pats p.fuel p ≠ .error .fuel :=
+  pass_nf pats p h
+
+/-- **optimizeDag_terminates_partial**: when every pass of the run starts from a graph over a topologically ordered store
+(`fuelRun`, decidable; computed by the driver for every real graph), the loop can only run out of fuel by exhausting the pass
+budget `n` with `n` passes that all report `changed`. -/
+theorem optimizeDag_terminates_partial (pats : List Pattern) : ∀ (n : Nat) (p : Prog), fuelRun pats n p = true →
+    optimizeDag pats n p = .error .fuel → allChanged pats n p = true
+  | 0, _, _, _ => rfl
+  | n + 1, p, hf, h => by
+    simp only [fuelRun, Bool.and_eq_true] at hf
+    obtain ⟨htopo, hrest⟩ := hf
+    simp only [optimizeDag] at h
+    split at h
+    · cases h
+    · cases hp : pass pats p.fuel p with
+      | error e =>
+        rw [hp] at h
+        simp only [bind, Except.bind, Except.error.injEq] at h
+        subst h
+        exact (pass_nf pats p htopo hp).elim
+      | ok r =>
+        obtain ⟨p', ch⟩ := r
+        rw [hp] at h hrest
+        simp only [bind, Except.bind] at h
+        cases ch with
+        | false => simp [pure, Except.pure] at h
+        | true =>
+          simp only [if_true] at h
+          simp only [allChanged, hp]
+          cases hq : optimizeDag pats n p' with
+          | error e =>
+            rw [hq] at h
+            simp only [Except.error.injEq] at h
+            subst h
+            exact optimizeDag_terminates_partial pats n p' hrest hq
+          | ok r => rw [hq] at h; simp [pure, Except.pure] at h
+
+/-- **optimizeDag_terminates** (relative to a measure): if some natural-number measure strictly decreases in every pass that
+reports `changed` -- for the real optimiser the number of application nodes of the graph unfolded into a tree, checked on
+every real pass by tools/props/c05.py; `Props/C05.lean: optimize_terminates` is the abstract statement --, a budget of
+`μ p + 1` passes is never exhausted: the model returns a program (or a Python exception), not `Err.fuel`. -/
+theorem optimizeDag_terminates (pats : List Pattern) (μ : Prog → Nat)
+    (hμ : ∀ p p', pass pats p.fuel p = .ok (p', true) → μ p' < μ p) (p : Prog) (hf : fuelRun pats (μ p + 1) p = true) :
+    optimizeDag pats (μ p + 1) p ≠ .error .fuel := by
+  intro h
+  have hall := optimizeDag_terminates_partial pats _ p hf h
+  have key : ∀ (n : Nat) (q : Prog), μ q < n → allChanged pats n q = false := by
+    intro n
+    induction n with
+    | zero => intro q hq; omega
+    | succ n ih =>
+      intro q hq
+      simp only [allChanged]
+      split
+      · rename_i q' hp
+        exact ih q' (by have := hμ q q' hp; omega)
+      · rfl
+  rw [key _ p (by omega)] at hall
+  cases hall
+
 /-! ## Non-vacuity -/
 
 /-- The numpy backend's functions. -/
@@ -104,7 +171,7 @@ rewritten once --, transposes merged, the merged transpose `(0, 1)` removed as a
 side conditions of `optimizeDag_sound` hold for the whole run. -/
 example : (optimizeDag npFns.patterns 10 exProg).toOption.map (·.2) = some [true, true, true, false] := by decide +kernel
 
-example : goodRun npFns.patterns 10 exProg = true := by decide +kernel
+example : goodRun npFns.patterns 10 exProg = true ∧ fuelRun npFns.patterns 10 exProg = true ∧ exProg.topoOK = true := by decide +kernel
 
 /-- The result: `add(y', y')` with `y' = cast(reshape(x, (3,2)))` (8 nodes instead of 15). -/
 example : (optimizeDag npFns.patterns 10 exProg).toOption.map (fun r => r.1.store.nodes.length) = some 8 := by decide +kernel
